@@ -1,9 +1,9 @@
 package main
 
 import (
-	"os"
 	"encoding/json"
 	"fmt"
+	"os"
 	"sort"
 	"strings"
 
@@ -46,8 +46,8 @@ func ref(n gnode) J { return J{"$ref": n.Ref()} }
 type posT struct{ Pos, Target string }
 
 var c15Positions = map[string][]posT{
-	"schemas": {{"direct", "schemas"}, {"prop", "schemas"}, {"items", "schemas"}, {"addl", "schemas"}, {"allOf", "schemas"}, {"oneOf", "schemas"}, {"anyOf", "schemas"}, {"not", "schemas"}},
-	"parameters": {{"direct", "parameters"}, {"schema", "schemas"}, {"schema.items", "schemas"}, {"content.schema", "schemas"}, {"examples", "examples"}, {"content.examples", "examples"}},
+	"schemas":       {{"direct", "schemas"}, {"prop", "schemas"}, {"items", "schemas"}, {"addl", "schemas"}, {"allOf", "schemas"}, {"oneOf", "schemas"}, {"anyOf", "schemas"}, {"not", "schemas"}},
+	"parameters":    {{"direct", "parameters"}, {"schema", "schemas"}, {"schema.items", "schemas"}, {"content.schema", "schemas"}, {"examples", "examples"}, {"content.examples", "examples"}},
 	"headers":       {{"direct", "headers"}, {"schema", "schemas"}, {"content.schema", "schemas"}, {"examples", "examples"}},
 	"requestBodies": {{"direct", "requestBodies"}, {"content.schema", "schemas"}, {"content.examples", "examples"}, {"encoding.headers", "headers"}},
 	"responses":     {{"direct", "responses"}, {"headers", "headers"}, {"content.schema", "schemas"}, {"content.examples", "examples"}, {"links", "links"}, {"headers.schema", "schemas"}},
